@@ -26,12 +26,14 @@ HOOKS = {
     10: lambda v: {"w": v},
     11: lambda v: [v, v],
     12: lambda v: "H",
+    14: lambda v: None,
     20: lambda r: r["w"],
     21: lambda r: r[0],
     22: lambda r: 7,
+    25: lambda r: "was-none" if r is None else "not-none",
 }
-ENC_HOOKS = [10, 11, 12]
-DEC_FOR_ENC = {10: 20, 11: 21}
+ENC_HOOKS = [10, 11, 12, 14]
+DEC_FOR_ENC = {10: 20, 11: 21, 14: 25}
 
 # ------------------------------------------------------------------------------------------------
 # canonical values (DESIGN Appendix A) ---------------------------------------------------------
@@ -120,7 +122,8 @@ def _meta_of(f: dataclasses.Field) -> dict:
     for k, key in (("enc", "encoding_fn"), ("dec", "decoding_fn")):
         fn = f.metadata.get(key)
         if fn is not None:
-            m[k] = next(i for i, h in HOOKS.items() if h is fn)
+            hid = getattr(fn, "hook_id", None)
+            m[k] = hid if hid is not None else next(i for i, h in HOOKS.items() if h is fn)
     return m
 
 
@@ -160,7 +163,9 @@ class Built:
             return type(None)
         if k == "enum":
             if T["cls"] not in self.enums:
-                self.enums[T["cls"]] = enum.Enum(T["cls"] + self.suffix, {m: i + 1 for i, m in enumerate(T["members"])})
+                vals = T.get("values") or [i + 1 for i in range(len(T["members"]))]
+                mixin = {"str": str, "int": int}.get(T.get("mixin"))
+                self.enums[T["cls"]] = enum.Enum(T["cls"] + self.suffix, dict(zip(T["members"], vals)), type=mixin)
             return self.enums[T["cls"]]
         if k == "literal":
             return Literal[tuple(self.val(v) for v in T["vals"])]
@@ -183,6 +188,10 @@ class Built:
             return self.cls(T)
         raise ValueError(k)
 
+    def hook(self, cls_name: str, field_name: str, kind: str, hid: int):
+        """The callable attached as encoding_fn / decoding_fn (subclasses may wrap it, e.g. to count calls)."""
+        return HOOKS[hid]
+
     def cls(self, T: dict):
         name = T["cls"]
         if name in self.classes:
@@ -196,9 +205,9 @@ class Built:
             if not f.get("to_dict", True):
                 kw["to_dict"] = False
             if f.get("enc") is not None:
-                kw["encoding_fn"] = HOOKS[f["enc"]]
+                kw["encoding_fn"] = self.hook(name, f["name"], "enc", f["enc"])
             if f.get("dec") is not None:
-                kw["decoding_fn"] = HOOKS[f["dec"]]
+                kw["decoding_fn"] = self.hook(name, f["name"], "dec", f["dec"])
             d = f.get("default")
             if d is not None:
                 if d["t"] in ("list", "set", "dict", "inst"):
@@ -230,7 +239,7 @@ class Built:
             return pathlib.Path(V["v"])
         if t == "enum":
             if V["cls"] not in self.enums:
-                self.ty(next(T_("enum", cls=c, members=m) for c, m in ENUMS if c == V["cls"]))
+                self.ty(next(enum_type(e) for e in ENUMS if e[0] == V["cls"]))
             return self.enums[V["cls"]][V["v"]]
         if t == "list":
             return [self.val(x) for x in V["v"]]
@@ -256,7 +265,7 @@ class Built:
 # ------------------------------------------------------------------------------------------------
 # real source modules (postponed annotations; user types named like things `typing` exports) ------
 
-TYPING_ENUM_NAMES = ["Type", "Text", "Pattern", "Match", "Final", "Color"]
+TYPING_ENUM_NAMES = ["Type", "Text", "Pattern", "Match", "Final", "Color", "Level"]
 TYPING_CLASS_NAMES = ["Container", "Counter", "Collection", "Mapping", "Sequence", "Iterable", "Generic", "Hashable",
                       "Item", "Config"]
 SRC_HEADER = """import enum
@@ -325,8 +334,9 @@ def render_module(T, postponed: bool, builtin_generics: bool) -> str:
     walk(T)
     out = (["from __future__ import annotations", ""] if postponed else []) + [SRC_HEADER, ""]
     for name, e in enums.items():
-        out.append(f"class {name}(enum.Enum):")
-        out += [f"    {m} = {i + 1}" for i, m in enumerate(e["members"])]
+        vals = e.get("values") or [i + 1 for i in range(len(e["members"]))]
+        out.append(f"class {name}(" + {"str": "str, ", "int": "int, "}.get(e.get("mixin"), "") + "enum.Enum):")
+        out += [f"    {m} = {v!r}" for m, v in zip(e["members"], vals)]
         out.append("")
     for name, c in classes.items():
         base = c.get("base", "plain")
@@ -406,7 +416,20 @@ FLOATS = ["0.0", "1.5", "-2.25", "1e-07", "1e+16", "3.141592653589793", "inf", "
 STRS = ["", "a", "hello world", "12", "yes", "None", "null", "é", "日本語", "a\nb", " x ", "1.5", "true", "[1]", "ключ",
         "~", "0x10", "1e3", "#c", "- a", "a: b", "'q'", '"', "\\", "-7", "off", "N", "x" * 40, "tab\there", "{}", "a,b"]
 PATHS = ["a", "a/b", "/tmp/x", ".", "..", "/", "rel/ü.txt", "//net/x", "a b/c", "../up", "/usr/lib/python3"]
-ENUMS = [("Color", ["RED", "GREEN", "BLUE"]), ("Mode", ["A", "B"]), ("Lvl", ["LOW", "MID", "HIGH", "X1"])]
+# (name, members, mix-in, values): `class Level(str, Enum)` (NONE is falsy) and an int-mixed Enum (P0 is falsy) have members
+# that are also str / int instances
+ENUMS = [("Color", ["RED", "GREEN", "BLUE"], None, None), ("Mode", ["A", "B"], None, None),
+         ("Lvl", ["LOW", "MID", "HIGH", "X1"], None, None),
+         ("Level", ["LOW", "MID", "HIGH", "NONE"], "str", ["low", "mid", "high", ""]),
+         ("Prio", ["P0", "P1", "P2"], "int", [0, 1, 2])]
+
+
+def enum_type(e):
+    name, members, mixin, values = e
+    t = T_("enum", cls=name, members=members)
+    if mixin:
+        t.update(mixin=mixin, values=values)
+    return t
 LITERALS = [
     [{"t": "str", "v": "a"}, {"t": "str", "v": "b"}],
     [{"t": "int", "v": "1"}, {"t": "int", "v": "2"}, {"t": "int", "v": "3"}],
@@ -427,8 +450,7 @@ def gen_leaf(rng, hashable_only=False, key=False, no_literal=False):
          ["int", "int", "str", "str", "bool", "float", "enum", "path", "literal"]))
     k = rng.choice(kinds)
     if k == "enum":
-        c, m = rng.choice(ENUMS)
-        return T_("enum", cls=c, members=m)
+        return enum_type(rng.choice(ENUMS))
     if k == "literal":
         return T_("literal", vals=rng.choice(LITERALS))
     return T_(k)
@@ -652,7 +674,8 @@ def type_kinds(T, acc=None):
 
 PID = "C05"
 RULE = ("cases: (a) ser.route — a generated dataclass tree (Serializable / FrozenSerializable / plain; fields over the C05 type "
-        "grammar nested to depth <= 3 quick / 4 thorough) with a generated instance, sent through all seven real routes "
+        "grammar nested to depth <= 3 quick / 4 thorough; enums include a str-mixed `class Level(str, Enum)` with a falsy member and an "
+        "int-mixed one, as fields, list/tuple/set items, dict keys/values and inside nested classes) with a generated instance, sent through all seven real routes "
         "(to_dict/from_dict, dumps_json/loads_json, dumps_yaml/loads_yaml, save/load x .json/.yaml/.yml/.pkl in a temp dir); "
         "(a') the same through a generated real source module (unique module name, per-case temp dir) with `from __future__ import "
         "annotations`, user enums / dataclasses named like things `typing` exports (Type, Text, Container, Counter, ...), list[...] / List[...]; "
@@ -670,7 +693,7 @@ ASSUMPTIONS = [
 ]
 TRUSTED = ["stdlib json, pickle, pathlib; PyYAML"]
 EXHAUSTIVE = {"quick": False, "thorough": False}
-THOROUGH_ROUNDS = 5   # thorough tier: this many generator passes with derived PRNG states (vcheck)
+THOROUGH_ROUNDS = 3   # thorough tier: this many generator passes with derived PRNG states (vcheck)
 ROUTES = ["dict", "json", "yaml", "f.json", "f.yaml", "f.yml", "f.pkl"]
 
 
